@@ -657,3 +657,84 @@ def gen_accounting_case(rng, tier, hostile=None, hft=None):
         g["program"]["actions"].append([1, {"a": hostile}])
         case["hostile"] = hostile
     return case
+
+
+# ---------------------------------------------------------------------------
+# built-in and probe events
+# ---------------------------------------------------------------------------
+def spot_names(cfg):
+    return [n for n in cfg["simulation"]["markets"] if cfg[n]["class"] == "Market"]
+
+
+def add_builtin_events(rng, cfg, which=None, sessions=None, p_each=0.5):
+    """attach built-in events (valid settings) to randomly chosen sessions; returns the names added."""
+    spots = spot_names(cfg)
+    allm = list(cfg["simulation"]["markets"])
+    sess = cfg["simulation"]["sessions"]
+    which = which or ["FundamentalPriceShock", "OrderMistakeShock", "PriceLimitRule", "TradingHaltRule"]
+    added = []
+    for cls in which:
+        if rng.random() >= p_each:
+            continue
+        si = rng.randrange(len(sess)) if sessions is None else rng.choice(sessions)
+        steps = sess[si]["iterationSteps"]
+        name = "EV_%s_%d" % (cls, len(added))
+        if cls == "FundamentalPriceShock":
+            e = {"class": cls, "target": rng.choice(spots), "triggerTime": rng.randrange(max(1, steps)),
+                 "priceChangeRate": rng.choice([-0.3, -0.05, 0.05, 0.2]), "shockTimeLength": rng.choice([1, 1, 2, 4])}
+        elif cls == "OrderMistakeShock":
+            e = {"class": cls, "target": rng.choice(allm), "triggerTime": rng.randrange(max(1, steps)),
+                 "priceChangeRate": rng.choice([-0.1, -0.02, 0.02, 0.1]), "orderVolume": rng.choice([1, 10, 100]),
+                 "orderTimeLength": rng.choice([1, 5, 50])}
+        elif cls == "PriceLimitRule":
+            e = {"class": cls, "targetMarkets": rng.sample(allm, rng.randint(1, len(allm))),
+                 "triggerChangeRate": rng.choice([0.01, 0.05, 0.2])}
+        elif cls == "TradingHaltRule":
+            e = {"class": cls, "targetMarkets": rng.sample(allm, rng.randint(1, len(allm))),
+                 "triggerChangeRate": rng.choice([0.002, 0.01, 0.05]), "haltingTimeLength": rng.choice([1, 2, 3, 8])}
+        else:
+            raise ValueError(cls)
+        if rng.random() < 0.1:
+            e["enabled"] = False
+        cfg[name] = e
+        sess[si].setdefault("events", []).append(name)
+        added.append(name)
+    return added
+
+
+HOOK_TYPES = [("order", True), ("order", False), ("cancel", True), ("cancel", False), ("execution", False),
+              ("session", True), ("session", False), ("market", True), ("market", False)]
+
+
+def gen_probe(rng, cfg, session_index, total_steps, n_hooks=None, with_filters=True):
+    """settings of one ProbeEvent with a generated hook table."""
+    hooks = []
+    allm = list(cfg["simulation"]["markets"])
+    for _ in range(n_hooks or rng.randint(1, 5)):
+        typ, before = rng.choice(HOOK_TYPES)
+        r = rng.random()
+        if r < 0.3:
+            t = None
+        elif r < 0.4:
+            t = []
+        elif r < 0.6:
+            t = [rng.randrange(total_steps)]
+        elif r < 0.8:
+            a = rng.randrange(total_steps)
+            t = list(range(a, min(total_steps, a + rng.randint(1, 6))))
+        else:
+            t = [rng.randrange(total_steps) for _ in range(rng.randint(2, 5))]
+            if rng.random() < 0.5:
+                t.append(t[0])  # repeated entry
+        h = {"type": typ, "before": before, "time": t}
+        if typ == "market" and with_filters:
+            r = rng.random()
+            if r < 0.25:
+                h["cls"] = rng.choice(["Market", "IndexMarket"])
+            elif r < 0.5:
+                h["instance"] = rng.choice(allm)
+            elif r < 0.6:
+                h["cls"] = rng.choice(["Market", "IndexMarket"])
+                h["instance"] = rng.choice(allm)
+        hooks.append(h)
+    return {"class": "ProbeEvent", "hooks": hooks}
